@@ -209,6 +209,6 @@ end
 
 /-- top-level read with a budget that always suffices (see `Props/C09`). -/
 def read (e : Endian) (t : TType) (bs : Bytes) : Out (TVal × Bytes) :=
-  readVal e (2 * bs.length + 2) t bs
+  readVal e (3 * bs.length + 3) t bs
 
 end Pilota.Thrift.Binary
